@@ -485,6 +485,9 @@ func runC06(ctx *common.Ctx) error {
 	if err := scripted(ctx, em); err != nil {
 		return err
 	}
+	if err := bigBatch(ctx, em); err != nil {
+		return err
+	}
 	n := ctx.Budget(8, 40)
 	for e := 0; e < n; e++ {
 		if err := randomEpisode(ctx, em, e+1, ctx.Budget(30, 60)); err != nil {
